@@ -28,7 +28,7 @@ RULE = ("scenario = establishment outcome x 0..4 messages with per-request answe
         "silence / other status / exception) and timing (tie, hops) x server-pushed notifications/requests x chunking of the event bytes x "
         "optional stream death x exit path at a generated instant; non-trivial = establishment was not the plain immediate announcement, or a "
         "request was answered over the event stream, or the exit was not the plain normal path, or the stream was chunked inside an event")
-PROBES = ["event_then_post_failed", "establish_failed_status", "establish_no_announcement", "announce_at_timeout_edge", "event_before_202", "event_after_202", "silence_timeout",
+PROBES = ["falsy_request_id", "event_then_post_failed", "establish_failed_status", "establish_no_announcement", "announce_at_timeout_edge", "event_before_202", "event_after_202", "silence_timeout",
           "post_failed", "chunk_inside_event", "chunk_inside_utf8", "server_push_delivered", "exit_cancel_scope", "exit_task_cancel",
           "exit_exception", "cancel_while_waiting_for_event", "stream_died", "int_request_id", "push_right_after_response_event"]
 TIERS = {"quick": {"runs": 12000, "wall": 45.0}, "thorough": {"runs": 800000, "wall": 560.0}}
@@ -75,6 +75,8 @@ def generate(rng: random.Random, tier: str) -> dict:
             m["event_at"] = m["post_latency"] + tl + rng.choice([-10, -1, 0, 1, 10]) - m["post_latency"]  # around the per-request timeout
         if not notif:
             m["id"] = rng.choice([f"r{k}", f"r{k}", k + 1, f"{k + 1}"])
+            if k == 0 and rng.random() < 0.15:
+                m["id"] = rng.choice([0, 0, ""])  # falsy but valid ids
         else:
             m["mode"] = rng.choice(["202", "202", "exc", "other_status_plain"])
         m["push_after"] = rng.random() < 0.25  # a server notification written right behind the response event
@@ -521,6 +523,8 @@ def execute(scn: dict) -> dict:
             rid = m["id"]
             if isinstance(rid, int):
                 probe("int_request_id")
+            if not rid:
+                probe("falsy_request_id")
             p = posts.get(k)
             mine = [(i, t, g) for i, (t, g) in enumerate(got) if "method" not in g and "id" in g and str(g["id"]) == str(rid)]
             for (i, _t, _g) in mine:
